@@ -488,6 +488,39 @@ def harness_results(ck, p, what_prefix=""):
     return summary
 
 
+def apalache_inductive(module, cfg, ind_init, ind_inv, implied, neg_subst, next_op="NextUnbounded", timeout=600):
+    """Unbounded safety with Apalache: Init => IndInv, IndInv /\ Next => IndInv', IndInv => implied; the defective design
+    (cfg with neg_subst applied) must NOT be inductive. Returns the list of discharged obligations; InfraError otherwise."""
+    wd = os.path.join(scratch(), "apalache-" + module)
+    os.makedirs(wd, exist_ok=True)
+    for f in (module + ".tla", cfg):
+        shutil.copy(os.path.join(SPEC, f), wd)
+    neg = open(os.path.join(wd, cfg)).read().replace(neg_subst[0], neg_subst[1])
+    with open(os.path.join(wd, "neg.cfg"), "w") as fh:
+        fh.write(neg)
+    obligations = [("initial states satisfy %s" % ind_inv, cfg, "Init", ind_inv, 0, True),
+                   ("%s is inductive" % ind_inv, cfg, ind_init, ind_inv, 1, True),
+                   ("%s implies %s" % (ind_inv, implied), cfg, ind_init, implied, 0, True),
+                   ("defective design (%s): %s is NOT inductive" % (neg_subst[1], ind_inv), "neg.cfg", ind_init, ind_inv, 1, False)]
+    done = []
+    for what, c, init, inv, length, want_ok in obligations:
+        try:
+            p = subprocess.run(["apalache-mc", "check", "--config=" + c, "--next=" + next_op, "--init=" + init, "--inv=" + inv,
+                                "--length=%d" % length, "--out-dir=" + os.path.join(wd, "out"), module + ".tla"],
+                               cwd=wd, stdout=subprocess.PIPE, stderr=subprocess.STDOUT, timeout=timeout)
+        except subprocess.TimeoutExpired:
+            raise InfraError("apalache timeout: " + what)
+        out = p.stdout.decode(errors="replace")
+        ok = "The outcome is: NoError" in out
+        err = "The outcome is: Error" in out
+        if not ok and not err:
+            raise InfraError("apalache did not decide (%s): %s" % (what, out[-1500:]))
+        if ok != want_ok:
+            raise InfraError("apalache obligation failed in the model: " + what)
+        done.append(what)
+    return done
+
+
 def write_ndjson(path, records):
     with open(path, "w") as fh:
         for r in records:
